@@ -48,7 +48,7 @@ Coin(a) == (D :> a)
 MaxLatestHistory == 100
 
 NoEv == [name |-> "Init", who |-> "", feed |-> "", agg |-> "", lh |-> 0, provs |-> <<>>, thr |-> 0,
-         cap |-> 0, timeout |-> 0, freq |-> 0, kind |-> "", x |-> 0, dt |-> 0, rank |-> 0,
+         cap |-> 0, timeout |-> 0, freq |-> 0, kind |-> "", pay |-> "", x |-> 0, dt |-> 0, rank |-> 0,
          aggs |-> EmptyF, code |-> 0, ok |-> TRUE, panic |-> FALSE, halt |-> FALSE]
 
 (* code: the result code of the oracle-price module service (CallPrice), else 0 *)
@@ -60,6 +60,52 @@ PAIR == "btc-stake"         \* the feed the exchange rate btc -> stake is read f
 MaxAge == 300               \* seconds (block time) after which a value is expired
 
 NoDup(q) == \A i, j \in DOMAIN q : i # j => q[i] # q[j]
+
+(***************************************************************************)
+(* Unusual inputs (round 7).  What today's code makes of strings of the    *)
+(* wrong kind; e.pay names how an input is written down.                   *)
+(*                                                                         *)
+(* Providers.  MsgCreateFeed / MsgEditFeed do not validate the provider    *)
+(* strings; keeper.go converts them with `pd, _ := AccAddressFromBech32`:  *)
+(* a string that is no account address ("?garbage", an address under the   *)
+(* validator prefix "?valoper") becomes the EMPTY address and is stored as *)
+(* provider "" (never bound, never asked); bech32 in upper case ("?upper", *)
+(* p1's address) is p1; the address of the service request escrow          *)
+(* ("?module") is an address like any other.                               *)
+(*                                                                         *)
+(* Feed names.  ValidateFeedName: ^[a-zA-Z][a-zA-Z0-9/_-]*$; names are     *)
+(* case sensitive ("FA" is another feed than "fa").                        *)
+(*                                                                         *)
+(* Fee caps.  validateServiceFeeCap: exactly one coin of the base denom.   *)
+(* Service names: CreateRequestContext needs a defined service (names are  *)
+(* case sensitive).                                                        *)
+(*                                                                         *)
+(* Answers.  types/aggregate.go reads gjson(body.<path>).Float(): the      *)
+(* number whether it is written plainly, with an exponent, with more       *)
+(* digits, or inside a string; the FIRST of duplicate members; 1 for true; *)
+(* 0 when there is no number (member or body missing, null, false, an      *)
+(* object, an array, a string that holds no number, -0.0).  Every such     *)
+(* output is a valid response for the service module and counts towards    *)
+(* the threshold.  MsgRespondService.ValidateBasic refuses a result 200    *)
+(* without output, another result with one, a result code outside the      *)
+(* schema, an output without header, a request id of the wrong length.     *)
+(***************************************************************************)
+ProvOf(p) ==
+  CASE p \in {"?garbage", "?valoper"} -> ""
+    [] p = "?upper" -> "p1"
+    [] p = "?module" -> SVCREQ
+    [] OTHER -> p
+ProvsOf(q) == [i \in DOMAIN q |-> ProvOf(q[i])]
+
+BadFeedNames == {"", "1fa", "fa b", "fa.x", "-fa", "_fa"}
+CapPays == {"btccap", "twocap"}
+SvcPays == {"nosvc", "svccase"}    \* CreateFeed on a service that is not defined / on "Price" for "price"
+ZeroPays == {"missing", "null", "false", "obj", "arr", "strbad", "nobody", "negzero"}
+RefusedAnswer(e) ==
+  \/ e.pay = "ridshort"
+  \/ e.kind = "val" /\ e.pay \in {"emptyout", "badresult", "nohdr"}
+  \/ e.kind # "val" /\ e.pay = "errout"
+AnsX(e) == IF e.pay \in ZeroPays THEN 0 ELSE IF e.pay = "true" THEN 100000000 ELSE e.x
 
 -----------------------------------------------------------------------------
 (* types/aggregate.go, on integers in units of 10^-8 *)
@@ -127,19 +173,21 @@ Callback(s, e, c) ==
 -----------------------------------------------------------------------------
 (* msgs.go ValidateBasic + keeper.go CreateFeed + service CreateRequestContext *)
 DoCreateFeed(s, e) ==
-  IF e.lh < 1 \/ e.lh > MaxLatestHistory THEN FailW(s, "latest_history")
+  IF e.feed \in BadFeedNames THEN FailW(s, "feed_name")
+  ELSE IF e.pay \in SvcPays THEN FailW(s, "unknown_service")
+  ELSE IF e.lh < 1 \/ e.lh > MaxLatestHistory THEN FailW(s, "latest_history")
   ELSE IF e.timeout <= 0 \/ e.freq < e.timeout THEN FailW(s, "timeout")
   ELSE IF Len(e.provs) = 0 THEN FailW(s, "providers")
   ELSE IF e.agg \notin {"max", "min", "avg"} THEN FailW(s, "aggregate")
   ELSE IF e.cap < 0 THEN FailW(s, "fee_cap")
   ELSE IF e.thr < 1 \/ e.thr > Len(e.provs) THEN FailW(s, "threshold")
   ELSE IF e.feed \in DOMAIN s.feeds THEN FailW(s, "exists")
-  ELSE IF ~NoDup(e.provs) THEN FailW(s, "duplicate_providers")
-  ELSE IF e.cap = 0 THEN FailW(s, "fee_cap")
+  ELSE IF ~NoDup(ProvsOf(e.provs)) THEN FailW(s, "duplicate_providers")
+  ELSE IF e.cap = 0 \/ e.pay \in CapPays THEN FailW(s, "fee_cap")
   ELSE IF e.timeout > s.params.timeout THEN FailW(s, "max_timeout")
   ELSE
     LET cid == CtxId(s.nctx + 1)
-        cx == [consumer |-> e.who, provs |-> e.provs, state |-> "paused", cap |-> e.cap,
+        cx == [consumer |-> e.who, provs |-> ProvsOf(e.provs), state |-> "paused", cap |-> e.cap,
                timeout |-> e.timeout, rep |-> TRUE, freq |-> e.freq, thr |-> e.thr,
                bdone |-> TRUE, bcount |-> 0, reqN |-> 0, respN |-> 0, bthr |-> e.thr,
                newAt |-> 0, expAt |-> 0, rank |-> e.rank, reqs |-> EmptyF]
@@ -190,13 +238,14 @@ DoEditFeed(s, e) ==
     ELSE
       LET cx == s.ctx[c]
           thr == IF e.thr = 0 THEN cx.thr ELSE e.thr
-          pds == IF Len(e.provs) = 0 THEN cx.provs ELSE e.provs
+          pds == IF Len(e.provs) = 0 THEN cx.provs ELSE ProvsOf(e.provs)
           timeout == IF e.timeout = 0 THEN cx.timeout ELSE e.timeout
           freq == IF e.freq = 0 THEN cx.freq ELSE e.freq
       IN
       IF e.timeout < 0 THEN FailW(s, "timeout")
-      ELSE IF ~NoDup(e.provs) THEN FailW(s, "duplicate_providers")
+      ELSE IF ~NoDup(ProvsOf(e.provs)) THEN FailW(s, "duplicate_providers")
       ELSE IF thr > Len(pds) THEN FailW(s, "threshold")
+      ELSE IF e.cap > 0 /\ e.pay \in CapPays THEN FailW(s, "fee_cap")
       ELSE IF e.timeout > s.params.timeout THEN FailW(s, "max_timeout")
       ELSE IF freq < timeout THEN FailW(s, "frequency")
       ELSE
@@ -212,7 +261,8 @@ DoEditFeed(s, e) ==
 (* service RespondService / AddResponse; the request is the one of e.who in the
    current batch of the feed's context *)
 DoRespond(s, e) ==
-  IF e.feed \notin DOMAIN s.feeds THEN FailW(s, "unknown_request")
+  IF RefusedAnswer(e) THEN FailW(s, "invalid_response")
+  ELSE IF e.feed \notin DOMAIN s.feeds THEN FailW(s, "unknown_request")
   ELSE
     LET c == s.feeds[e.feed].ctx IN
     IF c \notin DOMAIN s.ctx \/ DOMAIN s.ctx[c].reqs = {} THEN FailW(s, "unknown_request")
@@ -225,7 +275,7 @@ DoRespond(s, e) ==
         LET fee == cx.reqs[who].fee
             tax == (fee * s.params.taxNum) \div s.params.taxDen
             kind == IF e.kind = "val" THEN "val" ELSE "err"
-            x == IF kind = "val" THEN e.x ELSE 0
+            x == IF kind = "val" THEN AnsX(e) ELSE 0
             cx1 == [cx EXCEPT !.reqs[who] = [@ EXCEPT !.act = FALSE, !.kind = kind, !.x = x],
                               !.respN = @ + 1]
             complete == cx1.respN = cx1.reqN
@@ -382,7 +432,7 @@ Completed(s, t, c) ==
 ValidOut(s, e, c) ==
   LET before == BatchVals(s.ctx[c]) IN
   IF e.name = "Respond" /\ e.ok /\ e.kind = "val" /\ e.feed \in DOMAIN s.feeds /\ s.feeds[e.feed].ctx = c
-  THEN Put(before, e.who, e.x) ELSE before
+  THEN Put(before, e.who, AnsX(e)) ELSE before
 
 MetThreshold(s, e, c) ==
   LET n == Cardinality(DOMAIN ValidOut(s, e, c)) IN n > 0 /\ n >= s.ctx[c].bthr
@@ -491,7 +541,7 @@ X17_EditApplied(s, e, t) ==
         a == s.ctx[c]
         b == t.ctx[c]
     IN /\ b.thr = (IF e.thr = 0 THEN a.thr ELSE e.thr)
-       /\ b.provs = (IF Len(e.provs) = 0 THEN a.provs ELSE e.provs)
+       /\ b.provs = (IF Len(e.provs) = 0 THEN a.provs ELSE ProvsOf(e.provs))
        /\ b.timeout = (IF e.timeout = 0 THEN a.timeout ELSE e.timeout)
        /\ b.freq = (IF e.freq = 0 THEN a.freq ELSE e.freq)
        /\ b.cap = (IF e.cap = 0 THEN a.cap ELSE e.cap)
@@ -542,6 +592,7 @@ XsDef2 == {-3, 2}
 EditTFsDef == {<<1, 1>>, <<1, 2>>, <<2, 2>>, <<2, 1>>}
 ProvListsDef == {<<"p1">>, <<"p1", "p2">>}
 ProvLists1Def == {<<"p1">>}
+ProvListsOdd == {<<"p1">>, <<"p1", "p2">>, <<"p1", "?garbage">>, <<"?upper">>, <<"?module", "p2">>, <<"p2", "u2">>}
 ProvListsDef3 == {<<"p1">>, <<"p2", "p1">>, <<"p1", "p2", "p3">>}
 
 Accts == Users \cup Provs \cup {SVCREQ, SVCDEP, SVCTAX}
@@ -625,6 +676,111 @@ Rejects(h) == Cardinality({i \in DOMAIN h : ~h[i].ok})
 GenNext == Next /\ (ev'.ok \/ Rejects(hist) < 2)
 GenSpec == Init /\ [][GenNext]_vars
 GenDepth == atoi(IOEnv.GEN_DEPTH)
+
+(***************************************************************************)
+(* Probe generator (round 7, negative probing).  A behaviour first gets    *)
+(* somewhere — accepted events only, among them answers written down in    *)
+(* unusual ways and feeds with provider strings of the wrong kind (NextP)  *)
+(* — and then ends with ProbeLen events that the specification REJECTS,    *)
+(* aimed at the state reached and sent in the block of the last accepted   *)
+(* messages: every feed command by the creator in the wrong state, by      *)
+(* another user, by a provider; answers by users, by providers that were   *)
+(* not asked or have answered, answers that ValidateBasic must refuse;     *)
+(* commands on names of the wrong kind (another case, a prefix, a longer   *)
+(* name, a context id); feeds that must not be created.  The replay's      *)
+(* epilogue is computed from the REAL chain state (the feeds the chain     *)
+(* has): each is restarted by its recorded creator, every request the      *)
+(* chain holds is answered, the batches run out — so whatever the code     *)
+(* wrongly accepted is followed up and judged by the clauses.              *)
+(***************************************************************************)
+ValuePays == {"exp", "zeros", "str", "dupfirst", "dupbody", "extra", "ridlower"}
+RefusedPays == {"emptyout", "badresult", "nohdr", "ridshort"}
+OddNames == {"FA", "f", "fa/1", "c1", "Btc-stake", "1fa"}
+Everybody == Users \cup Provs
+
+(* (the families are kept small: in simulation mode TLC enumerates every successor) *)
+X1 == CHOOSE x \in Xs : x # 0
+U1 == CHOOSE u \in Users : TRUE
+P1 == CHOOSE p \in Provs : TRUE
+RespondPay ==
+  /\ st.inb
+  /\ \E who \in Provs, f \in DOMAIN st.feeds :
+       \/ \E x \in Xs, pay \in ValuePays :
+            Step([NoEv EXCEPT !.name = "Respond", !.who = who, !.feed = f, !.kind = "val", !.x = x, !.pay = pay])
+       \/ \E pay \in ZeroPays \cup {"true"} :
+            Step([NoEv EXCEPT !.name = "Respond", !.who = who, !.feed = f, !.kind = "val", !.x = X1, !.pay = pay])
+NextP == Next \/ RespondPay
+
+OddFeed ==
+  /\ st.inb
+  /\ \E who \in {U1, P1}, f \in OddNames \ DOMAIN st.feeds :
+       \/ \E nm \in {"StartFeed", "PauseFeed"} : Step([NoEv EXCEPT !.name = nm, !.who = who, !.feed = f])
+       \/ Step([NoEv EXCEPT !.name = "EditFeed", !.who = who, !.feed = f, !.lh = 1])
+       \/ Step([NoEv EXCEPT !.name = "Respond", !.who = who, !.feed = f, !.kind = "val", !.x = X1])
+       \/ \E k \in {"pause", "start", "kill"} : Step([NoEv EXCEPT !.name = "SvcDirect", !.who = who, !.feed = f, !.kind = k])
+StrangerOps ==
+  /\ st.inb
+  /\ \E f \in DOMAIN st.feeds :
+       \/ \E who \in Provs, nm \in {"StartFeed", "PauseFeed"} : Step([NoEv EXCEPT !.name = nm, !.who = who, !.feed = f])
+       \/ \E who \in Provs, lh \in Limits : Step([NoEv EXCEPT !.name = "EditFeed", !.who = who, !.feed = f, !.lh = lh])
+       \/ \E who \in Provs : Step([NoEv EXCEPT !.name = "EditFeed", !.who = who, !.feed = f, !.provs = <<who>>])
+       \/ \E who \in Users, x \in Xs : Step([NoEv EXCEPT !.name = "Respond", !.who = who, !.feed = f, !.kind = "val", !.x = x])
+       \/ \E who \in Users : Step([NoEv EXCEPT !.name = "Respond", !.who = who, !.feed = f, !.kind = "err"])
+OddAnswer ==
+  /\ st.inb
+  /\ \E who \in Provs, f \in DOMAIN st.feeds :
+       \/ \E pay \in RefusedPays :
+            Step([NoEv EXCEPT !.name = "Respond", !.who = who, !.feed = f, !.kind = "val", !.x = X1, !.pay = pay])
+       \/ \E pay \in {"errout", "ridshort"} :
+            Step([NoEv EXCEPT !.name = "Respond", !.who = who, !.feed = f, !.kind = "err", !.pay = pay])
+OddCreate ==
+  /\ st.inb
+  /\ LET agg == CHOOSE a \in Aggs : TRUE
+         cap == CHOOSE c \in Caps : TRUE
+         fr == CHOOSE x \in Freqs : TRUE
+         fn == CHOOSE f \in FeedNames : f \notin DOMAIN st.feeds
+         Ev(who, f) == [NoEv EXCEPT !.name = "CreateFeed", !.who = who, !.feed = f, !.agg = agg, !.lh = 1,
+                                   !.provs = <<P1>>, !.thr = 1, !.cap = cap, !.timeout = 1, !.freq = fr]
+     IN \E who \in Users :
+       \/ \E f \in BadFeedNames \cup DOMAIN st.feeds : Step(Ev(who, f))
+       \/ \E pay \in CapPays \cup SvcPays : Step([Ev(who, fn) EXCEPT !.pay = pay])
+       \/ Step([Ev(who, fn) EXCEPT !.agg = "MAX"])
+       \/ \E qs \in {<<"p1", "?upper">>, <<"?garbage", "?valoper">>, <<"p1", "p1">>} : Step([Ev(who, fn) EXCEPT !.provs = qs])
+       \/ Step([Ev(who, fn) EXCEPT !.agg = "sum"])
+       \/ \E lh \in {0, 101} : Step([Ev(who, fn) EXCEPT !.lh = lh])
+       \/ \E thr \in {0, 9} : Step([Ev(who, fn) EXCEPT !.thr = thr])
+       \/ Step([Ev(who, fn) EXCEPT !.cap = 0])
+       \/ Step([Ev(who, fn) EXCEPT !.timeout = 0])
+       \/ Step([Ev(who, fn) EXCEPT !.timeout = MaxTimeout + 1, !.freq = MaxTimeout + 1])
+       \/ Step([Ev(who, fn) EXCEPT !.timeout = 2, !.freq = 1])
+OddEdit ==
+  /\ st.inb
+  /\ \E f \in DOMAIN st.feeds :
+       LET who == st.feeds[f].creator
+           cap == CHOOSE c \in Caps : TRUE IN
+       \/ \E pay \in CapPays : Step([NoEv EXCEPT !.name = "EditFeed", !.who = who, !.feed = f, !.cap = cap, !.pay = pay])
+       \/ \E qs \in {<<"p1", "?upper">>, <<"?garbage", "?valoper">>, <<"p1", "p1">>} :
+            Step([NoEv EXCEPT !.name = "EditFeed", !.who = who, !.feed = f, !.provs = qs])
+       \/ Step([NoEv EXCEPT !.name = "EditFeed", !.who = who, !.feed = f, !.lh = 101])
+       \/ Step([NoEv EXCEPT !.name = "EditFeed", !.who = who, !.feed = f, !.thr = 9])
+       \/ Step([NoEv EXCEPT !.name = "EditFeed", !.who = who, !.feed = f, !.timeout = MaxTimeout + 1, !.freq = MaxTimeout + 1])
+OddCall ==
+  /\ st.inb
+  /\ \E who \in Users, f \in FeedNames : Step([NoEv EXCEPT !.name = "CallPrice", !.who = who, !.feed = f, !.cap = 0])
+
+ProbeLen == 4
+InProbe == Len(hist) + ProbeLen >= GenDepth
+ProbeNext == StartFeed \/ PauseFeed \/ EditFeed \/ Respond \/ SvcDirect \/ BindX
+             \/ OddFeed \/ StrangerOps \/ OddAnswer \/ OddCreate \/ OddEdit \/ OddCall
+(* at most ProbeBurst messages per block on the way, so that the behaviour gets deep *)
+ProbeBurst == 3
+RECURSIVE SinceBegin(_)
+SinceBegin(h) == IF h = <<>> \/ h[Len(h)].name = "BeginBlock" THEN 0 ELSE 1 + SinceBegin(SubSeq(h, 1, Len(h) - 1))
+GenNextP ==
+  \/ (~InProbe /\ NextP /\ ev'.ok /\ (ev'.name \in {"BeginBlock", "EndBlock"} \/ SinceBegin(hist) < ProbeBurst))
+  \/ (InProbe /\ ~st.inb /\ BeginBlock)
+  \/ (InProbe /\ ProbeNext /\ ~ev'.ok)
+GenSpecP == Init /\ [][GenNextP]_vars
 GenConstraint ==
   /\ Len(hist) <= GenDepth
   /\ (Len(hist) = GenDepth) => PrintT(<<"BEHAVIOUR", ToJson(hist)>>)
